@@ -111,6 +111,61 @@ func cmdDump(args []string) int {
 	return 0
 }
 
+// callSiteCensus: functions of the contract file's package (outside the allowed list) that contain a call site
+// matching the pattern, and the total number of matching sites in the package.
+func (e *Engine) callSiteCensus(cf *ContractFile, cd CallersDecl) ([]string, int) {
+	allowed := map[string]bool{}
+	for _, a := range cd.Allowed {
+		// continuation lines are appended to the last entry: split again
+		for _, n := range strings.FieldsFunc(a, func(r rune) bool { return r == ',' || r == ' ' || r == '\t' }) {
+			allowed[n] = true
+		}
+	}
+	var offenders []string
+	sites := 0
+	for _, sp := range e.ssaPkgs {
+		if sp.Pkg.Name() != cf.PkgName || !strings.HasPrefix(filepath.Join(e.repo, strings.TrimPrefix(sp.Pkg.Path(), "github.com/bloxapp/ssv/")), filepath.Dir(cf.Path)) {
+			continue
+		}
+		forEachFunc(e, sp, func(fn *ssa.Function) {
+			var visit func(f *ssa.Function) bool
+			visit = func(f *ssa.Function) bool {
+				hit := false
+				for _, blk := range f.Blocks {
+					for _, in := range blk.Instrs {
+						ci, ok := in.(ssa.CallInstruction)
+						if !ok {
+							continue
+						}
+						n := calleeName(ci.Common())
+						if n != "" && (n == cd.Pattern || shortCallee(n) == cd.Pattern) {
+							hit = true
+							sites++
+						}
+					}
+				}
+				for _, af := range f.AnonFuncs {
+					if visit(af) {
+						hit = true
+					}
+				}
+				return hit
+			}
+			if strings.HasPrefix(fn.Name(), "verif_") {
+				return
+			}
+			if visit(fn) {
+				name := shortCallee(fn.String())
+				if !allowed[name] && !allowed[fn.String()] {
+					offenders = append(offenders, name)
+				}
+			}
+		})
+	}
+	sort.Strings(offenders)
+	return offenders, sites
+}
+
 func forEachFunc(eng *Engine, sp *ssa.Package, f func(*ssa.Function)) {
 	for _, m := range sp.Members {
 		switch m := m.(type) {
@@ -282,6 +337,30 @@ func cmdCheck(args []string) int {
 			env := enc.newSpecEnv(eng.clauses[lm], nil, h0, h0)
 			goal := enc.evalBool(env, clauseExpr(eng.clauses[lm]))
 			obs = append(obs, &Obligation{Name: "lemma." + lm.Label, Kind: "lemma", Func: "lemma " + lm.Label, Text: lm.Text, Goal: not(goal), Script: enc.sc, NAsserts: -1})
+		}
+	}
+	// call-site census (//@ callers): a structural obligation over every function of the package
+	if onlyRe == nil {
+		for _, cf := range eng.cfiles {
+			for _, cd := range cf.Callers {
+				tagged := false
+				for _, p := range cd.Props {
+					tagged = tagged || p == pc.ID
+				}
+				if !tagged {
+					continue
+				}
+				offenders, sites := eng.callSiteCensus(cf, cd)
+				sc := newScript()
+				txt := fmt.Sprintf("call sites of %s occur only in: %s (%d sites found)", cd.Pattern, strings.Join(cd.Allowed, ", "), sites)
+				if len(offenders) > 0 || sites == 0 {
+					sc.raw = "; " + txt + "\n; offending functions: " + strings.Join(offenders, ", ") + "\n(check-sat)\n"
+					txt += "; also called from: " + strings.Join(offenders, ", ")
+				} else {
+					sc.raw = "; " + txt + "\n(assert false)\n(check-sat)\n"
+				}
+				obs = append(obs, &Obligation{Name: fmt.Sprintf("%s.callers[%s].only_listed_functions", cf.PkgName, cd.Pattern), Kind: "callers", Func: cf.PkgName, Text: txt, Goal: "", Script: sc, NAsserts: -1})
+			}
 		}
 	}
 	// SMT lemma files
